@@ -12,7 +12,8 @@ COMMON_TB = [
 def only(*prefixes):
     """failure filter: keep a DIFF/SPECFAIL only when its detail mentions one of the prefixes"""
     def f(kind, detail):
-        return any(p in detail for p in prefixes)
+        # a DIFF / PARSE / CRASH is about the stream as a whole: never filtered out
+        return kind != 'SPECFAIL' or any(p in detail for p in prefixes)
     return f
 
 
@@ -22,6 +23,12 @@ CODEC_RULE = ("generated registries, alternately arbitrary ('wild': ids, referen
               "each encoding is then mutated (truncation at a random and, for short ones, at every offset; bit flips; byte insertion/deletion/overwrite; "
               "leading length field replaced by boundary/huge values; non-canonical compact patterns; trailing bytes) plus random byte strings, and given to the real Decode under catch_unwind "
               "with a counting allocator (dec case). Non-trivial: registry non-empty (enc) / any dec case; distinct = distinct case lines.")
+
+REGISTRY_RULE = ("random type graphs of 1..48 (thorough 96) identities (uniform or local references; all eight definition kinds; self loops, mutual cycles, "
+                 "nodes first met as a type parameter, skipped parameters, the real PhantomData identity as parameter/field/element) loaded into a const-generic "
+                 "family Node<N>/Alias<N,K> whose type_info() goes through the real Type/Field/Variant constructors, x random histories of 1..8 (thorough 12) "
+                 "register_type / register_types / map_into_portable calls with repeats and aliases, a snapshot of Registry::types() after every call. "
+                 "Non-trivial: the final registry has at least one reference; distinct = distinct case lines.")
 
 PROPS = {
     'C12': dict(
@@ -56,5 +63,41 @@ PROPS = {
         rule=CODEC_RULE + " C14 clauses on dec cases: no panic (catch_unwind; an abort kills the harness and is reported as CRASH), peak allocation <= 1024*len + 131072 bytes (counting allocator), an accepted input re-encodes to exactly the consumed bytes (library and layout encoder), resolve(len), resolve(len+7), resolve(u32::MAX) answer None.",
         trusted_base=COMMON_TB + ["never panics / never aborts / memory proportional to input are run-time facts observed on the generated inputs, not proved"],
         assumptions=["allocation bound constants 1024 and 131072 (the codec pre-allocates up to 16 KiB regardless of input)"],
+    ),
+    'C01': dict(
+        streams=[
+            dict(name='registry', quick=500, thorough=6000, filter=only('C01:')),
+            dict(name='builder', quick=400, thorough=4000, filter=only('C01 ')),
+            dict(name='retain', quick=800, thorough=10000, filter=only('C01:'), timeout=900),
+            dict(name='codec', quick=600, thorough=6000, filter=only('C01:')),
+        ],
+        rule=REGISTRY_RULE + " Also: builder histories (closed and not closed over next_type_id), retain on well-formed registries with random filters, decode(encode(r)) of well-formed registries. C01 oracle = Spec.wf (dense and closed) on every registry the implementation produced: after every operation (Registry::types()), PortableRegistry::from, builder finish, retain result, decoded registry.",
+        trusted_base=COMMON_TB,
+        assumptions=["the type graph (type_info() of every identity) is an input here; that it is what builders/derive produce is C02/C09/C17's business",
+                     "builder closure is relative to the caller: proved and checked under 'every registered reference is below next_type_id at finish'"],
+    ),
+    'C02': dict(
+        streams=[dict(name='registry', quick=800, thorough=8000, filter=only('C02:'))],
+        rule=REGISTRY_RULE + " C02 oracle: rooted isomorphism (Spec.iso) between the generated type graph and the final registry starting from (identity, returned id) pairs: same path/params/fields/variants/indices/docs/lengths at every node, references corresponding, functional and injective; map_into_portable output = input fields with only references replaced.",
+        trusted_base=COMMON_TB,
+        assumptions=["TypeId is an injective name of a type (identities modelled as Nat)"],
+    ),
+    'C05': dict(
+        streams=[dict(name='registry', quick=800, thorough=8000, filter=only('C05:'))],
+        rule=REGISTRY_RULE + " C05 oracle: registry length = number of identities reachable from the registered roots (Spec.reach); per-node type_info() evaluation counters (harness-side) are 1 exactly for reachable identities and never above 1; re-registering present roots (through any alias, with repetition and interleaving) leaves Registry::types() unchanged; alias nodes (same Identity, different fn pointer) get the id of their target.",
+        trusted_base=COMMON_TB,
+        assumptions=["aliases of built-in std types (Box/Rc/Arc/&/Vec/VecDeque/slice/String/str/PhantomData) are covered by the meta stream of C16; here aliasing is exercised through the harness's Alias<N,K> family and the real PhantomData identity"],
+    ),
+    'C10': dict(
+        streams=[dict(name='retain', quick=1500, thorough=20000, filter=only('C10:'), timeout=900)],
+        rule="well-formed registries of 0..40 (thorough 64) entries, either uniformly random references or structured (local references: chains, small cycles, self loops; entries reachable only through a type parameter; skipped parameters before real ones), all eight definition kinds, x filters (empty, full, singleton, last, random 25%); the real retain under catch_unwind, its input flushed before the call so a hang is attributed. Oracle Spec.retainOk: result well-formed, keys = reachable set, bijection onto new ids, each entry = original with references mapped. Non-trivial: returned map has more than one entry.",
+        trusted_base=COMMON_TB,
+        assumptions=["the filter is a pure predicate (FnMut state not modelled)"],
+    ),
+    'C11': dict(
+        streams=[dict(name='registry', quick=800, thorough=8000, filter=only('C11:'))],
+        rule=REGISTRY_RULE + " C11 oracle: every Registry::types() snapshot contains the previous one unchanged; the same history replayed gives byte-identical encode(); the distinct roots registered one by one in history order, in 3 (thorough 5) random permutations and reversed give registries of the same size that are rooted-isomorphic (Spec.iso from the returned ids) to the original.",
+        trusted_base=COMMON_TB,
+        assumptions=["TypeId ordering plays no role (BTreeMap<TypeId,_> is only looked up, never iterated)"],
     ),
 }
